@@ -372,6 +372,71 @@ where
     Ok(w)
 }
 
+/// lists in which MANY terms share one scalar (hence one bucket in every window): n at the wrap-around points of
+/// 8- and 16-bit counters
+fn same_scalar_case<G: HasPool>(n: usize, variant: usize) -> Result<usize, String>
+where
+    G::F: SqrtFld,
+{
+    let ks = [ScalarR::One, ScalarR::Small(3), ScalarR::AllOnes255, ScalarR::Bit(200)];
+    let pattern = vec![
+        Entry { pt: PtSel::Sub(1), neg: false, k: ks[variant % 4].clone() },
+        Entry { pt: PtSel::Sub(2), neg: false, k: ks[variant % 4].clone() },
+        Entry { pt: PtSel::Small(3), neg: false, k: ks[variant % 4].clone() },
+    ];
+    let c = MsmCase { group: 0, pattern, n: n as u32, step: 0, window: 0, extra_points: 0, extra_scalars: 0 };
+    let b = build::<G>(&c);
+    let want = G::curve().mul(&b.exponent, &G::gen());
+    let refs: Vec<&[u64; 4]> = b.scalars.iter().collect();
+    let w = cr("find_pippinger_window", || G::op_find_pippinger_window(n))?;
+    let t = cr("sum_of_products", || G::op_sum_of_products(&b.bases, &refs))?;
+    expect::<G>(&format!("sum_of_products (n={} terms sharing one scalar, window {})", n, w), &t, &want)?;
+    for win in [4usize, 9] {
+        let t = cr("sum_of_products_pippinger", || G::op_sum_of_products_pippinger(&b.bases, &refs, win))?;
+        expect::<G>(&format!("sum_of_products_pippinger (n={} terms sharing one scalar, window {})", n, win), &t, &want)?;
+    }
+    Ok(w)
+}
+
+fn same_scalar_ns(tier: Tier) -> Vec<usize> {
+    let mut v = vec![255, 256, 257, 512, 65535, 65536, 65537];
+    if tier == Tier::Thorough {
+        v.extend_from_slice(&[131072, 196608, 65536 * 4 + 1]);
+    }
+    v
+}
+
+fn run_same_scalar(ctx: &Ctx, rec: &mut dyn FnMut(Value, Info)) -> Result<(), (String, Value)> {
+    let ns = same_scalar_ns(ctx.tier);
+    let seed = ctx.seed as usize;
+    let mut jobs = vec![];
+    for (i, n) in ns.iter().enumerate() {
+        jobs.push((0u8, *n, seed + i));
+        if *n <= 65537 {
+            jobs.push((1u8, *n, seed + i + 1));
+        }
+    }
+    let res = crate::engine::par_map(ctx.threads, jobs.len(), |i| {
+        let (g, n, v) = jobs[i];
+        if g == 0 { same_scalar_case::<G1m>(n, v) } else { same_scalar_case::<G2m>(n, v) }
+    });
+    for (i, r) in res.into_iter().enumerate() {
+        let (g, n, v) = jobs[i];
+        let case = json!({"group": g, "n": n, "variant": v, "same_scalar": true});
+        r.map_err(|m| (m, case.clone()))?;
+        let mut info = Info::default();
+        info.nt();
+        info.class(format!("same-scalar-list:n={}", n));
+        rec(case, info);
+    }
+    Ok(())
+}
+
+fn replay_same_scalar(v: &Value) -> Result<(), String> {
+    let (g, n, variant) = (v["group"].as_u64().unwrap_or(0), v["n"].as_u64().unwrap_or(0) as usize, v["variant"].as_u64().unwrap_or(0) as usize);
+    if g == 0 { same_scalar_case::<G1m>(n, variant).map(|_| ()) } else { same_scalar_case::<G2m>(n, variant).map(|_| ()) }
+}
+
 fn big_ns(tier: Tier, group: u8) -> Vec<usize> {
     let mut v = vec![19, 20, 42, 43, 104, 105, 238, 239, 577, 578, 1257, 1258, 3463, 3464];
     // one list beyond 2^20 entries (a power-of-two threshold a blocked implementation would use) in every run
@@ -492,7 +557,7 @@ fn replay_large(v: &Value) -> Result<(), String> {
     }
 }
 
-crate::long_sub!(run_long_history, [24]);
+crate::long_sub!(run_long_history, [24, 27]);
 
 pub fn def() -> PropDef {
     PropDef {
@@ -507,6 +572,7 @@ pub fn def() -> PropDef {
             Box::new(Sub { name: "after-rejected-call", rule: "a valid list, then the same list with bit 255 set in one scalar (outside the property's domain; the panic, if any, is caught as a long-lived worker would), then 1..2 valid lists on the same thread, each compared with the model: a rejected call must not leave anything behind", quick: 200, thorough: 6_000, strategy: || boxed(after_rejected_strategy()), check: check_after_rejected }),
             Box::new(EnumSub { name: "large-windows", rule: "sum_of_products_pippinger with windows 17..=20 (a bucket pass costs ~2^w additions, so these are enumerated on one structured 7-entry list: G1 17..=20 and G2 17 in quick, both groups 17..=20 in thorough)", run: run_large, replay: replay_large, exhaustive: false }),
             Box::new(EnumSub { name: "window-heuristic", rule: "find_pippinger_window(n) within 1..=16 (enumerated; evidence counts each returned window once)", run: run_heuristic, replay: replay_heuristic, exhaustive: true }),
+            Box::new(EnumSub { name: "same-scalar-lists", rule: "lists of 255, 256, 257, 512, 65535, 65536, 65537 (thorough: up to 4*65536+1) terms that all share ONE scalar, so that one bucket of every window receives all of them (counters of 8 / 16 bits wrap exactly there); default entry point and explicit windows 4 and 9, both groups", run: run_same_scalar, replay: replay_same_scalar, exhaustive: false }),
             Box::new(EnumSub { name: "boundary-lists", rule: "default entry point on lists of length at every window-selection boundary +-1 (up to 3464 quick; up to 60319 / 543651 thorough) so that windows up to 9 (quick) / 16 (thorough) really run; plus lists of 2^20+1 entries (quick, G1) and 2^20-1, 2^20, 2^21+3, 3*2^20+1 (thorough)", run: run_big, replay: replay_big, exhaustive: false }),
         ],
         assumptions: {
